@@ -1,6 +1,6 @@
 # coding: utf-8
 """C01 — assembly yields exactly the Golden Gate ligation product."""
-EXTRA_OBLIGATION_FILES = ("Props/C03_src.v", "Props/C04_src.v",)
+EXTRA_OBLIGATION_FILES = ("Props/C01_src.v", "Props/C03_src.v", "Props/C04_src.v",)
 
 from harness import common, gens
 from harness.props import C02, C03
